@@ -7,8 +7,53 @@ import (
 	"flag"
 	"fmt"
 	"os"
+	"runtime/debug"
 	"strconv"
+	"strings"
+
+	"verifharness/internal/report"
 )
+
+// which properties a component serves (used only to address the report of a crash of the component itself)
+var componentProps = map[string][]string{
+	"map": {"C04", "C05"}, "mapspec": {"C05"}, "color": {"C17"}, "bus": {"C13"}, "rom": {"C10"}, "header": {"C09"}, "sysmap": {"C11"},
+	"asm": {"C03", "C06", "C07", "C15", "C16", "C19"}, "asm-enc": {"C03", "C07"}, "asm-cpu": {"C07"},
+	"cpu": {"C01", "C02", "C08", "C12"}, "cpu-spec": {"C01"}, "run": {"C12", "C14"}, "trace": {"C14"}, "conc": {"C18"},
+}
+
+// crashReport: an unrecovered panic inside a component. When the panicking frame is library code of /repo (a call that
+// completes on the reference tree now fails), it is reported as a violation with the stack as the replay; a panic in the
+// harness's own code (e.g. it could not parse what the library printed) is a broken correspondence.
+func crashReport(comp string) {
+	r := recover()
+	if r == nil {
+		return
+	}
+	stack := string(debug.Stack())
+	inLib := false
+	for _, l := range strings.Split(stack, "\n") {
+		if strings.HasPrefix(l, "github.com/alttpo/snes") {
+			inLib = true
+			break
+		}
+		if strings.HasPrefix(l, "main.") && !strings.HasPrefix(l, "main.crashReport") {
+			break
+		}
+	}
+	rep := report.New(comp, tier, seed)
+	kind, clause := "disagreement", "the harness component crashed: "
+	if inLib {
+		kind, clause = "violation", "the library panicked inside a call that the property requires to complete (it does on the reference tree): "
+	}
+	if len(stack) > 2500 {
+		stack = stack[:2500]
+	}
+	for _, p := range componentProps[comp] {
+		rep.Add(report.Finding{Property: p, Kind: kind, Clause: clause + fmt.Sprint(r), Input: "vh " + strings.Join(os.Args[1:], " "), Detail: stack})
+	}
+	rep.Emit()
+	os.Exit(0)
+}
 
 var (
 	tier     = "quick"
@@ -36,6 +81,7 @@ func main() {
 	}
 	seed = s
 	_ = replay
+	defer crashReport(comp)
 	switch comp {
 	case "map":
 		runMap()
